@@ -605,7 +605,7 @@ class Interp:
                 return SStr(simp(r))
         # builtin-typed values: methods handled by lib; a name the real type does not have is an AttributeError, as in CPython
         nt = type_of(obj)
-        if nt is not object and not hasattr(nt, name):
+        if nt is not object and not hasattr(nt, name) and (type(obj), name) not in self.lib.METHODS:  # (modelled methods, e.g. memoryview.tobytes on the bytes model)
             self.raise_(AttributeError, f"'{nt.__name__}' object has no attribute '{name}'")
         return SConst(("method", obj, name))
 
@@ -688,6 +688,8 @@ class Interp:
                     self.raise_(ValueError, f"{vcn} is not a valid {cls.__name__}")  # exact for a concrete non-member value
                 self.ex.note("assumed", f"{cls.__name__}(int) yields a member with that value (Flag composition / valid member)")
                 return SEnum(cls, v.t)
+            if isinstance(v, SEnum) and v.cls is cls:
+                return v  # Enum(member) is the member itself
             raise Unsupported(f"enum construction {cls.__name__}({v!r})")
         if isinstance(cls, type) and issubclass(cls, tuple) and hasattr(cls, "_fields"):
             # typing.NamedTuple / collections.namedtuple
@@ -1091,6 +1093,25 @@ class Interp:
                 x = self.lib.seq_elem(self, it, z3.IntVal(n)) if isinstance(it, SSeq) else seq_getitem(it, n)
                 n += 1
                 self.assign(s.target, x)
+                try:
+                    self.exec_block(s.body)
+                except BreakSig:
+                    return
+                except ContinueSig:
+                    continue
+        if isinstance(it, SConst) and isinstance(it.obj, tuple) and it.obj and it.obj[0] == "srange":
+            # range(lo, hi) with symbolic bounds: bounded unrolling (labelled), one fork per iteration on lo + n < hi
+            lo, hi = _zi(it.obj[1]), _zi(it.obj[2])
+            n = 0
+            while True:
+                if not self.branch(SBool(lo + n < hi)):
+                    self.exec_block(s.orelse)
+                    return
+                if n >= self.ex.max_unroll:
+                    self.ex.note("bounded", f"for loop over range() in {fr.func.key} line {s.lineno} unrolled {self.ex.max_unroll}x")
+                    raise PathEnd("unroll bound", truncated=True)
+                self.assign(s.target, SInt(simp(lo + n)))
+                n += 1
                 try:
                     self.exec_block(s.body)
                 except BreakSig:
